@@ -190,23 +190,29 @@ class YAMLPath:
         prefixed_segment = "{}{}".format(self.separator, removable_segment)
         path_now = self.original
 
+        path_then: Optional[str] = None
         if (self.separator is not PathSeparators.FSLASH
                 and path_now.endswith(prefixed_segment)):
-            self.original = path_now[0:len(path_now) - len(prefixed_segment)]
+            path_then = path_now[0:len(path_now) - len(prefixed_segment)]
         elif path_now.endswith(removable_segment):
-            self.original = path_now[0:len(path_now) - len(removable_segment)]
+            path_then = path_now[0:len(path_now) - len(removable_segment)]
         elif (
             self.separator == PathSeparators.FSLASH
             and path_now.endswith(removable_segment[1:])
         ):
-            self.original = path_now[
+            path_then = path_now[
                 0:len(path_now) - len(removable_segment) + 1]
-        else:
+
+        if (path_then is None
+            or (len(path_then) - len(path_then.rstrip("\\"))) % 2 == 1
+        ):
             # The segment is spelled otherwise inside a path than alone (an
-            # Anchor is bracketed after the first segment):  rebuild the path
-            # from the segments which remain.
-            self.original = YAMLPath._stringify_yamlpath(
+            # Anchor is bracketed after the first segment), or what was cut
+            # off began with an escaped symbol of the segment before:  rebuild
+            # the path from the segments which remain.
+            path_then = YAMLPath._stringify_yamlpath(
                 segments, self.separator)
+        self.original = path_then
 
         return popped_segment
 
